@@ -2,7 +2,8 @@
 Specification: tools/overloads16.json (ONE table, one row per overload: operation, lanes, operand / result descriptors) ->
 spec/Overloads16.tla; spec/Layout16.tla gives the rows their meaning (Addr, Footprint, Extent, Expected = the scalar
 extension operation of C09 on the k-th operands).  Model (TLC, MC_Layout16): every row well-formed, footprints inside exact
-extents, result cells pairwise distinct, and over F_13 the A..G formulas of the code (with precomputed challenge sums) and the
+extents, result cells pairwise distinct, an offset array is addressed like a strided operand exactly when the WHOLE array is
+uniform (not when its ends are), two inputs sharing one array fit SharedExtent and satisfy SharedAgree, and over F_13 the A..G formulas of the code (with precomputed challenge sums) and the
 mixed base/ext shortcuts equal the definition.  Conformance: tools/gen_layout16.py generates one call site per row (overload
 selected by its exact declared signature); harness/layout16/rt16.cpp runs every row >= 96 (quick) / 400 (thorough) times in
 exact-extent guard-paged arenas (strides {0,1,2,3,4,5,7,1000,65537} for inputs, {3,4,5,7,1000,65537} for results, permuted /
@@ -13,7 +14,21 @@ stride / index list) is also called in place (alias a, alias b), expected = Expe
 stride-taking input is also called with strides 2^30, 2^31-1, 2^32+3 in sparse arenas (address range reserved PROT_NONE,
 only pages with designated cells accessible); Trace_Layout16 accepts an event iff the driver
 addressed the operands as the row says, each result element is congruent to Expected, the changed cells are exactly the
-row's write footprint and the re-run agreed; crashes are never accepted."""
+row's write footprint and the re-run agreed; crashes are never accepted.
+CALL HISTORIES: every row is also exercised as sequences of 6..12 calls made one after the other in one process and thread on
+the SAME objects (operand / result arenas, offset arrays, precomputed sums, register context keep their addresses) whose
+contents are overwritten in place between the calls: coordinates of every element (of the broadcast constant) permuted, basis
+elements (1,0,0) (0,1,0) (0,0,1), a value with the same xor / the same sum of its three words, one coordinate changed, the
+other representation of the same value, small / corner words, lanes reversed, the identical call repeated, offset arrays
+permuted in place; also in place (result = operand).  Every call of a history is an ordinary l16 event judged by itself from the
+operands as they are at that call (Trace_Layout16 has no state besides the position in the trace), so anything the library
+keeps from one call to the next and lets influence a result is a rejection.
+OFFSET ARRAY FAMILIES: every per-element offset array (inputs and results) also gets arrays that agree with a packed / uniform
+array on a chosen set of lanes only (first and last entry, first half, second half, even, odd, all but one, one, none ...) and
+on the others are a permutation / the reverse of the remaining uniform values or far positions (inputs also: equal to the first
+entry, shifted by one), descending, rotated, adjacent entries swapped, first = last, all equal; result offsets stay pairwise
+disjoint 3-cell slots.  SHARED INPUTS: rows whose two inputs live in memory are also called with a and b being the same array
+(same pointer) with equal, nearly equal and unrelated strides / offset arrays (Layout16!SharedExtent, SharedAgree)."""
 import os, json, glob, shutil, time
 from concurrent.futures import ThreadPoolExecutor
 import vlib
@@ -444,8 +459,7 @@ def gen_cases(rows, seed, ncalls, nalias, huge=True, tier='quick'):
     for r in rows:
         idx = bool(index_ops(r))
         hs = list(HIST_FIXED) + ([HIST_INDEX] if idx else [])
-        if th:
-            hs += [random_hist(g, 12, idx) for _ in range(10)]
+        hs += [random_hist(g, 12, idx) for _ in range(10)] if th else [random_hist(g, 8, idx)]
         for j, h in enumerate(hs):
             emit(r, base_par(g, r, j + (3 if idx else 0)), j, 'none', h, 0, g)
             groups['history'].append(ci)
@@ -562,6 +576,8 @@ def run(tier, seed, replay=None):
                        'in-place calls (result = the same register triple / the same array with the same stride or index list as an extension '
                        'operand) are exercised; partial overlaps of result and operand arrays (element k of the result on cells of another '
                        'operand element) are out of scope; result strides >= 3 and result index lists spaced by >= 3 (distinct result elements)',
+                       'call histories keep the overload, the strides and the footprint of every offset array fixed (offset arrays are permuted in '
+                       'place, operand contents are rewritten in place); histories mixing different overloads on one buffer are not exercised',
                        'huge input strides (2^30, 2^31-1, 2^32+3) are exercised for uniform-stride inputs only (not for index lists or result strides)',
                        'register operands passed by non-const reference may be clobbered by the callee (not observed)']
     not_ex = {}
